@@ -228,6 +228,14 @@ func main() {
 			os.Exit(1)
 		}
 	}
+	if *loopsMarshalOut != "" {
+		var lb strings.Builder
+		loopMarshalFacts(pkgs, &lb)
+		if err := os.WriteFile(*loopsMarshalOut, []byte(lb.String()), 0o644); err != nil {
+			fmt.Fprintln(os.Stderr, err)
+			os.Exit(1)
+		}
+	}
 	if *sendOut != "" {
 		var sb strings.Builder
 		senderFacts(pkgs, root, &sb)
